@@ -47,7 +47,8 @@ def twin_constants(chk):
             chk.violation(dict(obligation=ob, witness=bytes(r[0])), f'ascii_posix_properties[{key!r}] is not unicode_posix_properties[{key!r}] restricted to 0..255 (byte {bytes(r[0])!r})', None, no_input=True)
     # RE_BNORM is RE_NORM minus the u/U/N alternatives (same group structure otherwise)
     ob = 'C18:twin.util.RE_BNORM==RE_NORM_minus_uUN'
-    want = util.RE_NORM.pattern.replace(r'U[\da-fA-F]{8}|u[\da-fA-F]{4}|', '').replace("    (\\\\N\\{[^}]*?\\})|\n", '').replace('[^NUux]', '[^x]').replace('[NUux]', '[x]')
+    import re as _re
+    want = _re.sub(r'U\[[^\]]*\]\{8\}\|u\[[^\]]*\]\{4\}\|', '', util.RE_NORM.pattern).replace("    (\\\\N\\{[^}]*?\\})|\n", '').replace('[^NUux]', '[^x]').replace('[NUux]', '[x]')
     ok = util.RE_BNORM.pattern == want.encode('latin-1')
     chk.obligation(ob, 'proved' if ok else 'refuted', 'finite', 0.0, function='util.RE_BNORM')
     if not ok:
@@ -90,17 +91,38 @@ def api_level(chk, tier):
             if esc(s, **kw).encode('latin-1') != esc(s.encode('latin-1'), **kw):
                 chk.violation(dict(obligation='C18.bounded.escape_bytes', pattern=s), f'escape({s!r}, {kw}) differs between str and bytes', None)
     # mixed types raise TypeError
-    for call in (lambda: F.fnmatch('a', b'a'), lambda: F.fnmatch(b'a', 'a'), lambda: G.globmatch('a', b'a'), lambda: G.glob('a', root_dir=b'.'), lambda: G.glob(b'a', root_dir='.'),
-                 lambda: G.globmatch('a', b'a', flags=G.P), lambda: G.globmatch(b'a', b'a', flags=G.P, root_dir='.'), lambda: F.filter(['a'], b'a'),
-                 lambda: G.globmatch(b'a', b'a', flags=G.P, root_dir=''), lambda: G.globmatch('a', 'a', flags=G.P, root_dir=b''), lambda: G.globfilter([b'a'], b'a', flags=G.P, root_dir=''),
-                 lambda: G.compile(b'a', flags=G.P).match(b'a', root_dir=''), lambda: G.glob('a', root_dir=b''), lambda: G.glob(b'a', root_dir='')):
-        n += 1
-        chk.case(key=('mixed', n))
-        try:
-            r = call()
-            chk.violation(dict(obligation='C18.bounded.mixed_types_raise_TypeError', case=n), f'a mixed str/bytes call returned {r!r} instead of raising TypeError', None)
-        except TypeError:
-            pass
+    import tempfile
+    tdir = tempfile.mkdtemp(prefix='wcv-c18-')
+    open(os.path.join(tdir, 'a.txt'), 'w').close()
+    mixed = [
+        ("fnmatch.fnmatch('a', b'a')", lambda: F.fnmatch('a', b'a')), ("fnmatch.fnmatch(b'a', 'a')", lambda: F.fnmatch(b'a', 'a')), ("glob.globmatch('a', b'a')", lambda: G.globmatch('a', b'a')),
+        ("glob.glob('a', root_dir=b'.')", lambda: G.glob('a', root_dir=b'.')), ("glob.glob(b'a', root_dir='.')", lambda: G.glob(b'a', root_dir='.')),
+        ("glob.globmatch('a', b'a', flags=glob.P)", lambda: G.globmatch('a', b'a', flags=G.P)), ("glob.globmatch(b'a', b'a', flags=glob.P, root_dir='.')", lambda: G.globmatch(b'a', b'a', flags=G.P, root_dir='.')),
+        ("fnmatch.filter(['a'], b'a')", lambda: F.filter(['a'], b'a')), ("glob.globmatch(b'a', b'a', flags=glob.P, root_dir='')", lambda: G.globmatch(b'a', b'a', flags=G.P, root_dir='')),
+        ("glob.globmatch('a', 'a', flags=glob.P, root_dir=b'')", lambda: G.globmatch('a', 'a', flags=G.P, root_dir=b'')),
+        ("glob.globfilter([b'a'], b'a', flags=glob.P, root_dir='')", lambda: G.globfilter([b'a'], b'a', flags=G.P, root_dir='')),
+        ("glob.compile(b'a', flags=glob.P).match(b'a', root_dir='')", lambda: G.compile(b'a', flags=G.P).match(b'a', root_dir='')),
+        ("glob.glob('a', root_dir=b'')", lambda: G.glob('a', root_dir=b'')), ("glob.glob(b'a', root_dir='')", lambda: G.glob(b'a', root_dir='')),
+        # the directory walker: a str root with a bytes pattern (or the reverse) must not silently return an answer
+        ("wcmatch.WcMatch(TMP, b'*.txt').match()", lambda: WM.WcMatch(tdir, b'*.txt').match()), ("wcmatch.WcMatch(os.fsencode(TMP), '*.txt').match()", lambda: WM.WcMatch(os.fsencode(tdir), '*.txt').match()),
+        ("wcmatch.WcMatch(TMP, '*.txt', b'x', flags=wcmatch.RV).match()", lambda: WM.WcMatch(tdir, '*.txt', b'x', flags=WM.RV).match()),
+        # empty names of the wrong type
+        ("fnmatch.fnmatch(b'', '*')", lambda: F.fnmatch(b'', '*')), ("glob.globmatch('', b'*')", lambda: G.globmatch('', b'*')), ("fnmatch.filter([b''], '*')", lambda: F.filter([b''], '*')),
+    ]
+    try:
+        for what, call in mixed:
+            n += 1
+            chk.case(key=('mixed', what))
+            try:
+                r = call()
+                chk.violation(dict(obligation='C18.bounded.mixed_types_raise_TypeError', call=what, witness=what), f'the mixed str/bytes call {what} returned {r!r} instead of raising TypeError',
+                              f"import sys, os, tempfile; sys.path.insert(0, {REPO!r})\nfrom wcmatch import fnmatch, glob, wcmatch\nTMP = tempfile.mkdtemp()\nopen(os.path.join(TMP, 'a.txt'), 'w').close()\n"
+                              f"try:\n    print({what})\nexcept TypeError as e:\n    print('TypeError', e); sys.exit(0)\nsys.exit(1)\n")
+            except TypeError:
+                pass
+    finally:
+        os.remove(os.path.join(tdir, 'a.txt'))
+        os.rmdir(tdir)
     # RAWCHARS in bytes patterns: every byte value written as an octal or hex escape denotes exactly that byte; ASCII ones agree with str
     allb = [bytes([v]) for v in range(256)]
     for v in range(256):
